@@ -492,6 +492,18 @@ def r4(ctx):
             ctx.bad(f'{fmt}:signature', 'mismatch',
                     f'{fmt}: content signature {sig!r} is not a prefix of the header '
                     f'{head!r} the serialiser writes', ident.loc())
+        # an empty list is a successful write too: its text must still be identifiable by content
+        from ..vg import Const as _C, Evaluator as _E, Tup as _T, show as _show
+        oute = _E(m).run(ser, [_T((), 'list')], {})
+        vals = [v for _, v in oute.returns]
+        ctx.need(vals and all(isinstance(v, _C) and isinstance(v.v, str) for v in vals), f'{fmt}:empty list',
+                 f'text of an empty list not reducible: {[_show(v, 80) for v in vals]}')
+        if all(v.v.startswith(sig) for v in vals):
+            ctx.ok(f'{fmt}:empty list', f'an empty list is written as {vals[0].v!r}, which carries the signature')
+        else:
+            ctx.bad(f'{fmt}:empty list', 'no-signature',
+                    f'{fmt}: an empty region list is serialised as {vals[0].v!r}: the file written from it has no content '
+                    f'signature ({sig!r}), so a renamed copy cannot be read back without format=', ser.loc())
         if fmt == 'crtf':
             rmod = m.modules.get('regions.io.crtf.read')
             ctx.need(rmod and 'regex_begin' in rmod.assigns, 'crtf.read:regex_begin',
